@@ -686,7 +686,13 @@ func ExtractInjectorOpt(e *Engine, pkg *ssa.Package, f *ssa.Function, opt Extrac
 				x.prog.ParamTerms = append(x.prog.ParamTerms, "in_ctx")
 				continue
 			}
-			term := "in_" + sanitize(types.TypeString(t, qualNone))
+			// types of other packages keep their import path (two packages may share a name)
+			term := "in_" + sanitize(types.TypeString(t, func(p *types.Package) string {
+				if p == nil || (x.Pkg != nil && p == x.Pkg.Pkg) {
+					return ""
+				}
+				return p.Path()
+			}))
 			x.prog.ParamTerms = append(x.prog.ParamTerms, term)
 			var v value = vsym(term)
 			if _, isIface := t.Underlying().(*types.Interface); isIface {
